@@ -1610,15 +1610,9 @@ def _apply_constraints_iteratively(
     for iteration in range(max_iter):
         changed = False
 
-        # check if we already resolved everything
-        if all(
-            [
-                all([shape_dict[o][i] is not None for i in range(3)])
-                and all([all([slice_dict[o][i][s] is not None for s in range(2)]) for i in range(3)])
-                for o in object_map.keys()
-            ]
-        ):
-            break
+        # No early exit once every bound is known: constraints (and shape/bound consistency) that only
+        # became checkable during the previous pass still have to be verified.  The loop ends after
+        # the first pass that changes nothing, i.e. after every rule was checked against the final state.
 
         # Try to resolve positions from partial_real_position if size is now known
         resolved, slice_dict, errors = _resolve_static_positions_iterative(
